@@ -261,6 +261,7 @@ class _:
         return dict(self=make_ctxt(E))
     skolems = {'a': ADDR}
     uses = ['context.ServerContext._token_in_use']
+    returns = 'int'
     loops = {0: LoopSpec(invariant={'every-draw-has-bit-30-set-and-fits-31-bits': lambda token: (token >= 2 ** 30) & (token < 2 ** 31)}, label='draw-again')}
     ensures = {
         'token-has-bit-30-set-and-fits-31-bits': lambda result: (result >= 2 ** 30) & (result < 2 ** 31),
@@ -312,19 +313,28 @@ class _:
     modifies = ['ghost.life', 'field:ServerClientConnection.status']
 
 
-@contract('context.ServerContext._validateChallengeResponse', props=['C02', 'C10'])
-class _:
-    """True exactly when a connecting client is registered under this client's address and holds the presented token"""
-    def setup(E):
-        ctxt = make_ctxt(E)
-        return dict(self=ctxt, client=client_ref(E), token=E.int('token'))
-    ensures = {
-        'true-iff-the-connecting-client-at-this-address-holds-the-token': lambda E, self, client, token, result: S.iff(
-            result, S.bool(z3.And(z3.Select(self.temp_connections.dom, addr_of(E, client)),
-                                  z3.Select(live_fields(E)('token'), z3.Select(self.temp_connections.val, addr_of(E, client))) == S.term(token, 'int')))),
-    }
-    returns = 'bool'
-    modifies = []
+def holds_presented(E, self, client, token):
+    """the connecting client registered under this address stores exactly the presented token (a presented value that is not
+    a number equals no stored token)"""
+    if ops.pytype(token) not in ('int', 'bool'):
+        return S.bool(z3.BoolVal(False))
+    return S.bool(z3.And(z3.Select(self.temp_connections.dom, addr_of(E, client)),
+                         z3.Select(live_fields(E)('token'), z3.Select(self.temp_connections.val, addr_of(E, client))) == S.term(token, 'int')))
+
+
+for _tk in ('int', 'not-a-number'):
+    @contract('context.ServerContext._validateChallengeResponse', props=['C02', 'C10'], variant=None if _tk == 'int' else 'token-not-a-number')
+    class _:
+        """True exactly when a connecting client is registered under this client's address and holds the presented token"""
+        def setup(E, _tk=_tk):
+            ctxt = make_ctxt(E)
+            return dict(self=ctxt, client=client_ref(E), token=E.int('token') if _tk == 'int' else Box(z3.Int('some_other_value')))
+        ensures = {
+            'true-iff-the-connecting-client-at-this-address-holds-the-token': lambda E, self, client, token, result: S.iff(
+                result, holds_presented(E, self, client, token)),
+        }
+        returns = 'bool'
+        modifies = []
 
 
 def promoted_clause(E, old, self, client, events):
@@ -379,6 +389,11 @@ SRV = 'server.UdpServerThread'
 OWN_FIELDS = ['self.status', 'self.incoming_messages', 'self.token']
 
 
+def member_value(E, enum, name):
+    """the value of an enum member, read from the real class body"""
+    return S.term(E.member(enum, name).attrs['value'], 'int')
+
+
 def pair_term(E, v):
     ip = getattr(E, 'ip', E)
     return ip.unwrap(v, ADDR)
@@ -429,8 +444,8 @@ class _:
         # C02 mechanism: a connecting client is only ever handed CHALLENGE_RESP datagrams - or the hello it was created for
         'connecting-clients-only-get-challenge-responses-or-their-first-hello': lambda E, self, hdr, ghost: S.bool(z3.Implies(
             z3.Select(ghost.ctxt.temp_connections.dom, addr_of(E, self)),
-            z3.Or(S.term(hdr.pkt_type.value, 'int') == 3,
-                  z3.And(S.term(hdr.pkt_type.value, 'int') == 1, self.ref == ghost.alloc - 1)))),
+            z3.Or(S.term(hdr.pkt_type.value, 'int') == member_value(E, PTYPE, 'CHALLENGE_RESP'),
+                  z3.And(S.term(hdr.pkt_type.value, 'int') == member_value(E, PTYPE, 'CLIENT_HELLO'), self.ref == ghost.alloc - 1)))),
     }
     modifies = OWN_FIELDS
     effect = recv_datagram_effect
@@ -493,7 +508,7 @@ class _:
         'address-token-status-queue': lambda E, self, addr: S.bool(z3.And(
             addr_of(E, self) == pair_term(E, addr),
             z3.Select(live_fields(E)('token'), self.ref) == 0,
-            z3.Select(live_fields(E)('status'), self.ref) == 4)) & (S.len(self.incoming_messages) == 0),
+            z3.Select(live_fields(E)('status'), self.ref) == member_value(E, STATUS, 'DISCONNECTED'))) & (S.len(self.incoming_messages) == 0),
     }
     modifies = []
 
@@ -677,3 +692,75 @@ class _:
 def visited_removed(E, pool, _it, _i, a):
     w = _it.facts.witness(E.ip, a)
     return S.bool(z3.Implies(z3.Select(pool.dom, a), z3.And(z3.Select(_it.facts.kfacts.dom, a), w >= S.term(_i, 'int'), w < _it.n)))
+
+
+# ------------------------------------------------------------------------------------------ what the pool summaries restate, verified
+@contract('connection.ServerClientConnection.__init__', props=['C10', 'C12'])
+class _:
+    """the whole constructor chain (ServerClientConnection -> ConnectionBase) executed from the source on a concrete object:
+    the facts the pool-level summary __init__@pool assumes"""
+    def setup(E):
+        ctxt = E.plain_obj(tag='ctxt')
+        return dict(self=Obj(E.cls(SCC), {}, tag='self'), ctxt=ctxt, addr=(E.str('ip'), E.int('port')))
+    hooks = {'class:logger.PeerLogger': lambda ip, info, *a, **k: ip.lib.libspec._LOGGER if hasattr(ip.lib, 'libspec') else None}
+    ensures = {
+        'address-token-status-queue': lambda E, self, addr, ctxt: (self.addr is addr) & (self.ctxt is ctxt) & S.eq(self.token, 0)
+        & S.enum_is(self.status, E.member(STATUS, 'DISCONNECTED')) & (len(self.incoming_messages.items) == 0)
+        & (self.session_key_bytes is None) & (self.isServer is True),
+    }
+
+
+@contract('server.UdpServerThread.send', props=['C03', 'C10', 'C11'])
+class _:
+    """every triple (packet, key, address) is encoded with ITS key and written to ITS address, in order; nothing else is touched
+    (C03: the send site passes the session key; backs the summary send@pool)"""
+    def setup(E):
+        sock = E.plain_obj(tag='sock', sendto=E.opaque('sock.sendto', returns=None))
+        ctxt = E.plain_obj(tag='ctxt', log=E.member_logger())
+        self = E.obj(SRV, tag='self', sock=sock, ctxt=ctxt)
+        mk = lambda i: (E.plain_obj(tag='pkt%d' % i, to_bytes=E.opaque('pkt%d.to_bytes' % i, effect=lambda ip, fn, a, k, i=i: to_bytes_effect(ip, i, a))),
+                        E.bytes('key%d' % i, length=16), (E.str('ip%d' % i), E.int('port%d' % i)))
+        seq = E.list([mk(0), mk(1)])
+        E.ghost('seq', seq)
+        return dict(self=self, seq=seq)
+    ensures = {
+        'each-packet-sealed-with-its-own-key-and-sent-to-its-own-address': lambda events, ghost: sent_as_given(events, ghost.seq),
+    }
+    modifies = []
+
+
+def to_bytes_effect(ip, i, args):
+    t = ip.ctx.fresh('wire%d' % i, BytesSort)
+    ops.set_len_term(t, ip.ctx.fresh('wire%d_len' % i, z3.IntSort()))
+    ip.state.ghost.setdefault('wire', {})[i] = (Sym(t, 'bytes'), args)
+    return ip.state.ghost['wire'][i][0]
+
+
+def sent_as_given(events, seq, send='sock.sendto'):
+    sends = [e for e in events if e[0] == send]
+    enc = [e for e in events if e[0].endswith('.to_bytes')]
+    if len(sends) != len(seq.items) or len(enc) != len(seq.items):
+        return False
+    for i, (pkt, key, addr) in enumerate(seq.items):
+        if enc[i][0] != 'pkt%d.to_bytes' % i or len(enc[i][1]) != 1 or enc[i][1][0] is not key:
+            return False
+        if len(sends[i][1]) != 2 or sends[i][1][1] is not addr:
+            return False
+    return True
+
+
+@contract('twisted.TwistedServer.sendPacketsUnsafe', props=['C03'])
+class _:
+    """the Twisted send site: every packet is encoded with ITS session key and written to ITS address, in order"""
+    def setup(E):
+        tr = E.plain_obj(tag='transport', write=E.opaque('transport.write', returns=None))
+        self = E.obj('twisted.TwistedServer', tag='self', transport=tr)
+        mk = lambda i: (E.plain_obj(tag='pkt%d' % i, to_bytes=E.opaque('pkt%d.to_bytes' % i, effect=lambda ip, fn, a, k, i=i: to_bytes_effect(ip, i, a))),
+                        E.bytes('key%d' % i, length=16), (E.str('ip%d' % i), E.int('port%d' % i)))
+        seq = E.list([mk(0), mk(1)])
+        E.ghost('seq', seq)
+        return dict(self=self, seq=seq)
+    ensures = {
+        'each-packet-sealed-with-its-own-key-and-sent-to-its-own-address': lambda events, ghost: sent_as_given(events, ghost.seq, 'transport.write'),
+    }
+    modifies = []
